@@ -20,15 +20,15 @@ type ReadCall struct {
 // script: chunk sizes, zero-length reads, an error at a byte offset, and the
 // cancellation of a context at the j-th Read.
 type ScriptedReader struct {
-	Data       []byte
-	Chunks     []int // max bytes returned per Read, cycled; 0 entries produce (0, nil) reads
-	ErrAt      int   // byte offset at which ErrVal is returned instead of data (-1: never)
-	ErrVal     error
-	ErrWithData bool // return the bytes before ErrAt together with the error in the same call
-	CancelAtRead int // the context is cancelled when the Read with this index (0-based) arrives (-1: never)
-	Cancel     context.CancelFunc
-	Ctx        context.Context // context under test (only inspected for logging)
-	EOFWithData bool           // return io.EOF together with the last bytes
+	Data         []byte
+	Chunks       []int // max bytes returned per Read, cycled; 0 entries produce (0, nil) reads
+	ErrAt        int   // byte offset at which ErrVal is returned instead of data (-1: never)
+	ErrVal       error
+	ErrWithData  bool // return the bytes before ErrAt together with the error in the same call
+	CancelAtRead int  // the context is cancelled when the Read with this index (0-based) arrives (-1: never)
+	Cancel       context.CancelFunc
+	Ctx          context.Context // context under test (only inspected for logging)
+	EOFWithData  bool            // return io.EOF together with the last bytes
 
 	pos   int
 	calls int
@@ -140,15 +140,15 @@ type WriteCall struct {
 
 // ScriptedWriter is a sink with scripted short writes and errors.
 type ScriptedWriter struct {
-	Buf         []byte
-	ErrAt       int // byte offset at which ErrVal is returned (-1 never)
-	ErrVal      error
-	ShortEvery  int // every n-th write (1-based) accepts only half of the bytes without error (0: never)
-	Ctx         context.Context
+	Buf           []byte
+	ErrAt         int // byte offset at which ErrVal is returned (-1 never)
+	ErrVal        error
+	ShortEvery    int // every n-th write (1-based) accepts only half of the bytes without error (0: never)
+	Ctx           context.Context
 	CancelAtWrite int
-	Cancel      context.CancelFunc
-	calls       int
-	Log         []WriteCall
+	Cancel        context.CancelFunc
+	calls         int
+	Log           []WriteCall
 }
 
 func (w *ScriptedWriter) Write(p []byte) (int, error) {
